@@ -21,6 +21,11 @@ use std::time::Instant;
 
 pub const VERIF_DIR: &str = "/verif";
 
+/// where evidence and replay files go (default /verif; mutant runs redirect with VERIF_OUT)
+pub fn out_dir() -> String {
+	std::env::var("VERIF_OUT").unwrap_or_else(|_| VERIF_DIR.to_string())
+}
+
 // ---------------------------------------------------------------------------------------
 // panic capture
 // ---------------------------------------------------------------------------------------
@@ -445,7 +450,7 @@ impl Check {
 			"case": serde_json::to_value(case).unwrap_or(Value::Null),
 		});
 		let text = serde_json::to_string_pretty(&v).unwrap();
-		let dir = format!("{VERIF_DIR}/replays");
+		let dir = format!("{}/replays", out_dir());
 		let _ = std::fs::create_dir_all(&dir);
 		let path = format!("{dir}/{}-{:016x}.json", self.id, hash_str(&text));
 		if std::fs::write(&path, &text).is_err() {
@@ -781,7 +786,7 @@ impl Check {
 			"violations": if self.violation.is_some() { 1 } else { 0 },
 		});
 		if self.replay.is_none() {
-			let dir = format!("{VERIF_DIR}/evidence");
+			let dir = format!("{}/evidence", out_dir());
 			let _ = std::fs::create_dir_all(&dir);
 			let path = format!("{dir}/{}.json", self.id);
 			if let Err(e) = std::fs::write(&path, serde_json::to_string_pretty(&evidence).unwrap()) {
